@@ -103,6 +103,17 @@ def run(chk):
     kempston(chk, prog)
     mouse(chk, prog)
     input_mod_sets(chk, prog, names)
+    # "a key reads 0 exactly when some source holds it": the AND of the three matrices over every selected half-row is the
+    # ULA-read leaf rule of C07's decode walk
+    from . import c07
+    from zx.report import FilteredCheck
+    chk.rule("T-BITS (shared with C07)", "every ULA read path: result = AND over the selected half-rows of the three matrices, EAR on bit 6")
+    fc = FilteredCheck(chk, lambda k: k.startswith("T-BITS/") and (k.endswith("/rows") or k.endswith("/ear")), "c07")
+    c07._KB.clear()
+    c07._KB["prog"], c07._KB["names"] = prog, names
+    for m in names.machine_variants():
+        c07.decode(fc, prog, names, m, "read_io")
+    chk.check(fc.forwarded >= 16, "T-BITS/ZXController::read_io/ula-paths", "only %d ULA read paths were judged" % fc.forwarded)
     return chk.finish(EXPL)
 
 
